@@ -27,10 +27,15 @@ D5(p) == FxRat(p, 100000)        \* p / 10^5   (|p| < 2^31, 10^5 < 2^17)
 I3 == <<FxOne, FxZero, FxZero, FxZero, FxOne, FxZero, FxZero, FxZero, FxOne>>
 Ones3 == <<FxOne, FxOne, FxOne>>
 (* ColourMath's Inv3 and MatMul3 return function constructors, which TLC keeps symbolic and re-evaluates at every
-   application; T9/T3 enumerate them once into tuples (same values) *)
+   application; T9/T3 enumerate them once into tuples (same values).  Inv3T is the same adjugate inverse with ONE
+   Newton reciprocal of the determinant instead of nine quotients (a quotient costs fifteen multiplications in TLC);
+   MC_Adapt checks it against ColourMath's Inv3. *)
 T3(f) == <<f[1], f[2], f[3]>>
 T9(f) == <<f[1], f[2], f[3], f[4], f[5], f[6], f[7], f[8], f[9]>>
-Inv3T(m) == T9(Inv3(m))
+FxRecip(x) == FxDiv(FxOne, x)
+Inv3T(m) == LET r == FxRecip(Det3(m))  a == Adj3(m)
+            IN <<FxMul(a[1], r), FxMul(a[2], r), FxMul(a[3], r), FxMul(a[4], r), FxMul(a[5], r),
+                 FxMul(a[6], r), FxMul(a[7], r), FxMul(a[8], r), FxMul(a[9], r)>>
 MatMul3T(a, b) == T9(MatMul3(a, b))
 
 -----------------------------------------------------------------------------
@@ -86,7 +91,18 @@ IsSpaceName(sp) == \E i \in DOMAIN SpaceNames : SpaceNames[i] = sp
 
 (* the RGB -> XYZ matrix of a set of primaries and a white point: columns are the XYZ of the primaries scaled
    so that RGB (1, 1, 1) is the white point (SMPTE RP 177; Lindbloom, "RGB/XYZ matrices") *)
-RefRgbToXyz(sp, wp) == LET p == Primaries(sp) IN RgbToXyzFrom(p[1], p[2], p[3], p[4], p[5], p[6], WP(wp))
+PrimariesMatrix(p) ==
+  LET col(x, y) == LET ry == FxRecip(y) IN <<FxMul(x, ry), FxOne, FxMul(FxSub(FxSub(FxOne, x), y), ry)>>
+      r == col(p[1], p[2])  g == col(p[3], p[4])  b == col(p[5], p[6])
+  IN <<r[1], g[1], b[1], r[2], g[2], b[2], r[3], g[3], b[3]>>
+RefRgbToXyzOf(p, white) ==
+  LET q == PrimariesMatrix(p)
+      s == FxMatVec(Inv3T(q), white)
+  IN <<FxMul(q[1], s[1]), FxMul(q[2], s[2]), FxMul(q[3], s[3]),
+       FxMul(q[4], s[1]), FxMul(q[5], s[2]), FxMul(q[6], s[3]),
+       FxMul(q[7], s[1]), FxMul(q[8], s[2]), FxMul(q[9], s[3])>>
+(* the same construction as ColourMath!RgbToXyzFrom (MC_Adapt checks that they agree), with reciprocals *)
+RefRgbToXyz(sp, wp) == RefRgbToXyzOf(Primaries(sp), WP(wp))
 
 (* Cone response matrices of the adaptation methods (XYZ -> LMS):
    bradford    Lam 1985 / CIECAM97s, as in ICC.1 annex E and on Lindbloom's "Chromatic adaptation" page
@@ -128,7 +144,7 @@ Adapt(src, dst, m) == AdaptRef(WP(src), WP(dst), Cone(m), Inv3T(Cone(m)))
 RECURSIVE MinBitsFrom(_, _, _, _)
 MinBitsFrom(a, b, scale, i) == IF i > Len(a) THEN 200
                                ELSE Min2i(AgreeBits(a[i], b[i], scale), MinBitsFrom(a, b, scale, i + 1))
-SeqBits(a, b, scale) == IF Len(a) # Len(b) THEN -1 ELSE MinBitsFrom(a, b, scale, 1)
+SeqBits(a, b, scale) == IF Len(a) # Len(b) THEN -999 ELSE MinBitsFrom(a, b, scale, 1)
 RECURSIVE MagFrom(_, _)
 MagFrom(a, i) == IF i > Len(a) THEN FxZero ELSE FxMax(FxAbs(a[i]), MagFrom(a, i + 1))
 MagSeq(a) == MagFrom(a, 1)
@@ -184,7 +200,7 @@ Need(class, t) ==
     [] class \in {"conv.white.L", "conv.white.luvL"} -> IF f64 THEN 20 ELSE 16
     [] class \in {"conv.lab", "conv.luv", "conv.lch", "conv.lchuv"} -> IF f64 THEN 12 ELSE 9
     [] class \in {"conv.oklab", "conv.oklch", "conv.white.okL"} -> 14
-    [] class \in {"conv.hsv", "conv.hsl"} -> IF f64 THEN 44 ELSE 17
+    [] class \in {"conv.hsv", "conv.hsl", "conv.hwb"} -> IF f64 THEN 44 ELSE 17
     [] class = "conv.hsluv" -> IF f64 THEN 8 ELSE 4
     [] class = "conv.luma" -> IF f64 THEN 20 ELSE 17
     [] class = "conv.back" -> IF f64 THEN 19 ELSE 15
@@ -195,5 +211,14 @@ Need(class, t) ==
     [] class = "adapt.forms.same" -> IF f64 THEN 19 ELSE 16
     [] class \in {"mat3.then", "mat3.conv", "mat3.inv"} -> IF f64 THEN 40 ELSE 12
     [] class = "mat3.ident" -> 200
+    [] class = "space.native" -> 0
     [] OTHER -> 999
+(* every class, for the calibration report *)
+Classes == << "white.table", "cone.fwd", "cone.inv=ref", "cone.inv", "space.prim", "space.white", "space.hard=ref",
+              "space.hard.inv", "space.der=ref", "space.mfr=ref", "space.mfx=ref", "space.mfr.mfx", "space.white.map",
+              "conv.white.xyz", "conv.grey.xyz", "conv.grey.y", "conv.white.L", "conv.white.luvL", "conv.white.okL",
+              "conv.lab", "conv.luv", "conv.lch", "conv.lchuv", "conv.oklab", "conv.oklch", "conv.hsv", "conv.hsl",
+              "conv.hwb", "conv.hsluv", "conv.luma", "conv.back", "conv.cam16.J", "adapt.mat", "adapt.old",
+              "adapt.ident", "adapt.white", "adapt.fwd", "adapt.back", "adapt.new=old", "adapt.forms",
+              "adapt.forms.same", "mat3.then", "mat3.conv", "mat3.inv", "mat3.ident" >>
 =============================================================================
